@@ -1879,6 +1879,19 @@ def op_calc_ext(M, ch, tr, st, ev):
     with _Sut("DR_Results.calc_ext"):
         res.calc_ext()
     st.fault("calc_ext")
+    # recomputing the extremes must leave the per-case tables it reads alone
+    for cs in ev.cats:
+        a_, b_ = res[cs.name], ev.res[cs.name]
+        for nm in ("mx", "mn", "mx_x", "mn_x", "hist", "frf", "psd", "rms"):
+            if hasattr(b_, nm) and isinstance(getattr(b_, nm), np.ndarray):
+                if not np.array_equal(getattr(a_, nm), getattr(b_, nm), equal_nan=True):
+                    raise Violation("calc_ext_modified_tables", f"calc_ext:{cs.name}.{nm}")
+        if cs.srspv is not None and hasattr(b_, "srs"):
+            for q in b_.srs.srs:
+                if not np.array_equal(a_.srs.srs[q], b_.srs.srs[q], equal_nan=True):
+                    raise Violation("calc_ext_modified_tables", f"calc_ext:{cs.name}.srs.srs[{q}]", reason="per-case SRS table changed by calc_ext")
+        if list(a_.cases) != list(b_.cases):
+            raise Violation("calc_ext_modified_tables", f"calc_ext:{cs.name}.cases")
     for cs in ev.cats:
         a = res[cs.name]
         b = ev.res[cs.name]
